@@ -31,6 +31,9 @@ type RunSpec struct {
 	KeepTrace bool   `json:"keep_trace,omitempty"`
 	Variant   string `json:"variant,omitempty"` // engine specific (e.g. enumeration index)
 	Tier      string `json:"tier,omitempty"`
+	// Stalls turns on the stalled-goroutine fault for this run (set by the
+	// search loop for a fixed share of the runs; part of the replay file)
+	Stalls bool `json:"stalls,omitempty"`
 }
 
 // Violation is what an oracle reports.
@@ -168,9 +171,12 @@ func PickB[T any](x *Ctx, kind string, p0 float64, opts []T) T {
 
 // Scenario is one property's workload + oracles.
 type Scenario struct {
-	Prop    string
-	Horizon time.Duration
-	Steps   int
+	// NoStalls: the scenario's oracle bounds reaction times in the millisecond
+	// range, so goroutines must not be descheduled arbitrarily
+	NoStalls bool
+	Prop     string
+	Horizon  time.Duration
+	Steps    int
 	// Setup runs on the scheduler goroutine: create stubs, spawn tasks. It must
 	// not call instrumented code directly.
 	Setup func(x *Ctx)
@@ -306,6 +312,9 @@ func execute1(t *testing.T, spec RunSpec) (res RunResult) {
 
 func runInBubble(t *testing.T, sc *Scenario, spec RunSpec, res *RunResult) {
 	cfg := simrt.Config{Seed: spec.Seed, Replay: spec.Replay, KeepTrace: spec.KeepTrace, Horizon: sc.Horizon, MaxSteps: sc.Steps, Parallel: sc.Parallel, ParallelBudget: 40}
+	if spec.Stalls && sc.Parallel == 0 && !sc.NoStalls {
+		cfg.StallProb = 0.004
+	}
 	if spec.MaxSteps > 0 && spec.MaxSteps < cfg.MaxSteps {
 		// diagnosis only: look at the beginning of a long run
 		cfg.MaxSteps = spec.MaxSteps
